@@ -173,11 +173,18 @@ def call_sites(ctx):
     from allmydata.mutable.filenode import MutableFileNode
     terms = []
     info = []
-    n = ctx.n(25, 250)
+    n = ctx.n(30, 250)
     for i in range(n):
         r = ctx.rng("site", i)
         lease_secret = rbytes(r, 32)
         conv = rbytes(r, 32)
+        # edge secrets: whitespace / NUL / 0xff at either end (a call site that "cleans" the
+        # binary secret would change these), deterministic for the first cases
+        EDGE = [0x09, 0x0a, 0x0b, 0x0c, 0x0d, 0x20, 0x00, 0xff, 0x85, 0xa0]
+        if i < 2 * len(EDGE):
+            e = bytes([EDGE[i // 2]])
+            lease_secret = (e + lease_secret[1:]) if i % 2 == 0 else (lease_secret[:-1] + e)
+            conv = (e + conv[1:]) if i % 2 == 0 else (conv[:-1] + e)
         sh = SecretHolder(lease_secret, conv)
         writekey = rbytes(r, 16)
         fp = rbytes(r, 32)
